@@ -708,7 +708,8 @@ def _point_vector(grid, coordinates):
                 ec = 1.0
             else:
                 ic1 = ic+1
-                rc = (csrc-cc[ic])/(cc[ic1]-cc[ic])
+                # (Sources below the first point are not extrapolated.)
+                rc = max(0.0, (csrc-cc[ic])/(cc[ic1]-cc[ic]))
                 ec = 1.0-rc
             return rc, ec, ic1
 
